@@ -1,10 +1,11 @@
 (* M3 -- the reference-counting protocol of src/utils.rs (count word of one object: strong/weak
-   counts, DESTRUCTED/WEAKED flags, stamp) and the API operations of strong.rs / weak.rs that reach
-   it, over an ABSTRACT epoch-based reclamation layer (AbsEBR):
+   counts, DESTRUCTED/WEAKED flags, stamp), the recursive destruction of dispose_general_node, and
+   the API operations of strong.rs / weak.rs that reach them (Rc, Weak, Snapshot, WeakSnapshot,
+   NewRcIter, AtomicRc cells and link fields), over an ABSTRACT epoch-based reclamation layer:
 
-     - a global epoch G; a thread inside a user critical section has announced [ann] = the epoch at
+     - a global epoch G; a thread inside a critical section has announced [ann] = the epoch at
        which it pinned; G may advance only when every thread inside a critical section has ann = G
-       (so G <= ann + 1, which is theorem C14 of the concrete EBR model Ebr.v);
+       (so G <= ann + 1: theorem C14 of the concrete EBR model Ebr.v);
      - a deferred function may start only when G >= (epoch at deferral) + EXPIRE_AFTER
        (theorem C13 of Ebr.v is the consequence: no critical section active at deferral is still active);
      - WHEN a deferred function runs, and on which thread, is nondeterministic: the model is driven
@@ -12,13 +13,19 @@
        quantifies over all oracles.
 
    Granularity: one [step] of thread t = the access at the yield site t is blocked at (hook sites
-   100..119 of utils.rs, plus the harness' operation-start site 1) followed by the thread-local
-   computation up to its next yield site.  EBR-internal sites are not yield points here.
-   Count words go through the GENERATED Gen/StateW.v.  Memory model: SC (utils.rs is all SeqCst). *)
+   100..130 of utils.rs / strong.rs, plus the harness' operation-start site 1) followed by the
+   thread-local computation up to its next yield site.  EBR-internal sites are not yield points.
+   Count words go through the GENERATED Gen/StateW.v, the reclaim decision and the merged stamp
+   through the GENERATED Gen/DisposeW.v.  Memory model: SC (utils.rs is all SeqCst).
+   Tags are not modelled here (Cell.v does); timestamps of links and pointers are. *)
 From Coq Require Import ZArith List Bool Lia.
 Import ListNotations.
 Require Import Params StateW DisposeW.
 Local Open Scope Z_scope.
+
+Definition link := (nat * Z)%type.        (* (target object, 0 = null ; timestamp residue) *)
+Definition lw (l : link) : Z := Z.of_nat (fst l) * 16 + snd l.     (* canonical pointer word *)
+Definition null_link : link := (O, 0).
 
 (* ---- objects *)
 Record obj := {
@@ -26,15 +33,16 @@ Record obj := {
   dropped : bool;    (* payload: pop_edges / destructor have run *)
   freed : bool;      (* block deallocated *)
   tok : bool;        (* ghost: one unit of the strong count is the token owed to the pending attempt *)
+  links : list link; (* the two AtomicRc fields of the node *)
 }.
 
 Inductive handle :=
 | HNone
-| HRc (o : nat)                  (* owned strong reference; o = 0 is the null pointer *)
-| HWeak (o : nat)
-| HSnap (o : nat) (ser : nat)    (* Snapshot obtained in critical section number ser *)
-| HWSnap (o : nat) (ser : nat)
-| HIter (o : nat) (rem : Z).     (* NewRcIter with rem shares not yet yielded *)
+| HRc (l : link)                  (* owned strong reference (pointer word with its timestamp bits) *)
+| HWeak (l : link)
+| HSnap (l : link) (ser : nat)    (* Snapshot obtained in critical section number ser *)
+| HWSnap (l : link) (ser : nat)
+| HIter (o : nat) (rem : Z).      (* NewRcIter with rem shares not yet yielded *)
 
 Inductive pkind := KDestruct | KDealloc.
 Record pend := { pk : pkind; po : nat; pG : Z; pwit : list (nat * nat) }.
@@ -50,6 +58,7 @@ Inductive frame :=
 | FMay                                       (* local + oracle: may deferred functions start here? *)
 | FAwait                                     (* yield: a deferred function starts (site 113 / 102) *)
 | FEndClosure                                (* local *)
+| FUnpinTmp                                  (* local: the temporary guard of decrement_strong is dropped *)
 | FIncS100 (o : nat) (k : cont)              (* yields: increment_strong *)
 | FIncS101 (o : nat) (k : cont)
 | FDecS110 (o : nat) (cnt : Z) (tmp : bool) (own : bool)          (* decrement_strong *)
@@ -57,9 +66,15 @@ Inductive frame :=
 | FDecS112 (o : nat) (cnt r cur : Z) (tmp own : bool)
 | FTD113 (o : nat)                           (* try_destruct *)
 | FTD114 (o : nat) (old : Z)
-| FDisp115 (o : nat) (depth : Z)             (* dispose_general_node *)
+| FDispEnter (o : nat) (depth : Z)           (* local: dispose_general_node entry (depth cap) *)
+| FDisp115 (o : nat) (depth : Z)
 | FDisp116 (o : nat) (depth w : Z)
-| FDisp117 (o : nat) (depth : Z)
+| FDisp130 (o : nat) (depth w curr : Z)      (* yield 130: a cascade child publishes DESTRUCTED *)
+| FDispDo (o : nat) (depth w curr : Z)       (* local: pop_edges + destructor *)
+| FDisp117 (o : nat) (depth ne curr : Z) (outs : list link)
+| FKids (depth ne curr : Z) (outs : list link)                    (* local: next outgoing edge *)
+| FKid118 (c : link) (depth ne curr : Z) (outs : list link)
+| FKid119 (c : link) (wc nxt : Z) (depth ne curr : Z) (outs : list link)
 | FDecW107 (o : nat) (tmp : bool)            (* decrement_weak *)
 | FTDe102 (o : nat)                          (* try_dealloc *)
 | FIncW103 (o : nat) (cnt : Z)               (* increment_weak *)
@@ -67,23 +82,29 @@ Inductive frame :=
 | FIncW105 (o : nat) (cnt : Z)
 | FIncW106 (o : nat)
 | FIsND108 (o : nat) (k : cont)              (* is_not_destructed *)
-| FIsND109 (o : nat) (old : Z) (k : cont).
+| FIsND109 (o : nat) (old : Z) (k : cont)
+| FLoad121 (c : Z) (d : nat)                 (* AtomicRc::load *)
+| FSwap122 (c : Z) (new : link) (d : option nat)     (* store (d = None) / swap: hook before with_timestamp *)
+| FSwap120 (c : Z) (new : link) (d : option nat)     (* with_timestamp, then the swap *)
+| FCas120 (c : Z) (e : link) (des : link) (src d : nat)          (* compare_exchange: with_timestamp(desired) *)
+| FCas123 (c : Z) (e : link) (desraw : link) (src d : nat).
 
 Definition is_yield (f : frame) : bool :=
   match f with
-  | FOpEnd _ | FRet _ _ | FMay | FEndClosure => false
+  | FOpEnd _ | FRet _ _ | FMay | FEndClosure | FUnpinTmp | FDispEnter _ _ | FDispDo _ _ _ _ | FKids _ _ _ _ => false
   | _ => true
   end.
 
 Record thr := {
   vars : list handle;
-  gdepth : nat;         (* user guards held *)
-  ann : Z;              (* epoch announced by the current user critical section *)
-  serial : nat;         (* number of the current / last user critical section *)
+  gdepth : nat;         (* guards held: user guards and the temporary guard of decrement_strong *)
+  ann : Z;              (* epoch announced by the current critical section *)
+  serial : nat;         (* number of the current / last critical section *)
   inclosure : bool;     (* running a deferred function (collection phase) *)
   frames : list frame;
   prog : list (list Z); (* remaining operations: opcode :: arguments *)
   res : Z;              (* result of the operation in progress *)
+  resw : Z;             (* pointer word returned by the operation in progress *)
 }.
 
 Definition incs (t : thr) : bool := negb (Nat.eqb (gdepth t) 0).
@@ -91,6 +112,7 @@ Definition incs (t : thr) : bool := negb (Nat.eqb (gdepth t) 0).
 Record state := {
   G : Z;
   objs : list obj;          (* object id i+1 at index i *)
+  cells : list link;        (* root AtomicRc cells *)
   threads : list thr;
   pending : list pend;
   err : Z;                  (* 0 = fine; otherwise the first protocol violation the model saw *)
@@ -110,33 +132,64 @@ Definition geto (s : state) (o : nat) : option obj :=
 Definition seto (s : state) (o : nat) (x : obj) : state :=
   match o with
   | O => s
-  | S i => {| G := G s; objs := set_nth (objs s) i x; threads := threads s; pending := pending s; err := err s |}
+  | S i => {| G := G s; objs := set_nth (objs s) i x; cells := cells s; threads := threads s; pending := pending s; err := err s |}
   end.
 
-Definition with_word (x : obj) (w : Z) : obj := {| word := w; dropped := dropped x; freed := freed x; tok := tok x |}.
-Definition with_tok (x : obj) (b : bool) : obj := {| word := word x; dropped := dropped x; freed := freed x; tok := b |}.
+Definition with_word (x : obj) (w : Z) : obj :=
+  {| word := w; dropped := dropped x; freed := freed x; tok := tok x; links := links x |}.
+Definition with_tok (x : obj) (b : bool) : obj :=
+  {| word := word x; dropped := dropped x; freed := freed x; tok := b; links := links x |}.
+Definition with_links (x : obj) (l : list link) : obj :=
+  {| word := word x; dropped := dropped x; freed := freed x; tok := tok x; links := l |}.
 
 Definition sett (s : state) (t : nat) (x : thr) : state :=
-  {| G := G s; objs := objs s; threads := set_nth (threads s) t x; pending := pending s; err := err s |}.
+  {| G := G s; objs := objs s; cells := cells s; threads := set_nth (threads s) t x; pending := pending s; err := err s |}.
 
 Definition with_frames (x : thr) (fs : list frame) : thr :=
   {| vars := vars x; gdepth := gdepth x; ann := ann x; serial := serial x; inclosure := inclosure x;
-     frames := fs; prog := prog x; res := res x |}.
+     frames := fs; prog := prog x; res := res x; resw := resw x |}.
 Definition with_vars (x : thr) (v : list handle) : thr :=
   {| vars := v; gdepth := gdepth x; ann := ann x; serial := serial x; inclosure := inclosure x;
-     frames := frames x; prog := prog x; res := res x |}.
+     frames := frames x; prog := prog x; res := res x; resw := resw x |}.
 Definition with_res (x : thr) (r : Z) : thr :=
   {| vars := vars x; gdepth := gdepth x; ann := ann x; serial := serial x; inclosure := inclosure x;
-     frames := frames x; prog := prog x; res := r |}.
+     frames := frames x; prog := prog x; res := r; resw := resw x |}.
+Definition with_resw (x : thr) (r : Z) : thr :=
+  {| vars := vars x; gdepth := gdepth x; ann := ann x; serial := serial x; inclosure := inclosure x;
+     frames := frames x; prog := prog x; res := res x; resw := r |}.
+Definition with_guard (x : thr) (d : nat) (a : Z) (n : nat) : thr :=
+  {| vars := vars x; gdepth := d; ann := a; serial := n; inclosure := inclosure x;
+     frames := frames x; prog := prog x; res := res x; resw := resw x |}.
+Definition with_inclosure (x : thr) (b : bool) : thr :=
+  {| vars := vars x; gdepth := gdepth x; ann := ann x; serial := serial x; inclosure := b;
+     frames := frames x; prog := prog x; res := res x; resw := resw x |}.
 
 Definition set_err (s : state) (e : Z) : state :=
-  {| G := G s; objs := objs s; threads := threads s; pending := pending s; err := if err s =? 0 then e else err s |}.
+  {| G := G s; objs := objs s; cells := cells s; threads := threads s; pending := pending s;
+     err := if err s =? 0 then e else err s |}.
 Definition set_G (s : state) (g : Z) : state :=
-  {| G := g; objs := objs s; threads := threads s; pending := pending s; err := err s |}.
+  {| G := g; objs := objs s; cells := cells s; threads := threads s; pending := pending s; err := err s |}.
 Definition set_pending (s : state) (p : list pend) : state :=
-  {| G := G s; objs := objs s; threads := threads s; pending := p; err := err s |}.
+  {| G := G s; objs := objs s; cells := cells s; threads := threads s; pending := p; err := err s |}.
 
 Definition getv (x : thr) (i : nat) : handle := nth i (vars x) HNone.
+Definition nat_of (z : Z) : nat := Z.to_nat z.
+Definition zo (o : nat) : Z := Z.of_nat o.
+
+(* ---- cells: code < 1000 is a root cell; 1000 + 2*o + f is field f of object o *)
+Definition get_cell (s : state) (c : Z) : option link :=
+  if c <? 1000 then nth_error (cells s) (nat_of c)
+  else match geto s (nat_of ((c - 1000) / 2)) with
+       | Some ob => nth_error (links ob) (nat_of ((c - 1000) mod 2))
+       | None => None
+       end.
+Definition set_cell (s : state) (c : Z) (l : link) : state :=
+  if c <? 1000 then
+    {| G := G s; objs := objs s; cells := set_nth (cells s) (nat_of c) l; threads := threads s; pending := pending s; err := err s |}
+  else match geto s (nat_of ((c - 1000) / 2)) with
+       | Some ob => seto s (nat_of ((c - 1000) / 2)) (with_links ob (set_nth (links ob) (nat_of ((c - 1000) mod 2)) l))
+       | None => s
+       end.
 
 (* ---- AbsEBR *)
 Fixpoint witnesses_from (ls : list thr) (i : nat) : list (nat * nat) :=
@@ -176,7 +229,7 @@ Fixpoint take_pending (l : list pend) (k : pkind) (o : nat) : option (pend * lis
                    end
   end.
 
-(* ---- oracle access: the recorded observations of the current step, flat triples after the hint *)
+(* ---- oracle access: the recorded observations of the current step (flat triples) *)
 Fixpoint find_site (rec : list Z) (site : Z) : option (Z * Z) :=
   match rec with
   | s0 :: a :: b :: r => if s0 =? site then Some (a, b) else find_site r site
@@ -191,20 +244,14 @@ Definition oracle_epoch (s : state) (rec : list Z) (site : Z) : Z :=
 Definition fadd (w d : Z) : Z := wrap 64 (w + d).
 Definition fsub (w d : Z) : Z := wrap 64 (w - d).
 
-Definition zo (o : nat) : Z := Z.of_nat o.
-
-(* frames executing one API operation (after the op-start observation); returns the frames and the
-   updated thread (handles consumed by the operation are taken out of the variables first) *)
 Definition KSET (d : nat) (h : handle) : cont := {| cdst := d; cok := h; cfail := h; cign := true |}.
-
 Definition setv (x : thr) (i : nat) (h : handle) : thr := with_vars x (set_nth (vars x) i h).
 
-Definition nat_of (z : Z) : nat := Z.to_nat z.
-
-(* new object with [n] strong shares; returns its id *)
+(* new node with [n] strong shares and null links; returns its id *)
 Definition alloc (s : state) (n : Z) : state * nat :=
-  ({| G := G s; objs := objs s ++ [{| word := alloc_word n; dropped := false; freed := false; tok := false |}];
-      threads := threads s; pending := pending s; err := err s |}, S (length (objs s))).
+  ({| G := G s;
+      objs := objs s ++ [{| word := alloc_word n; dropped := false; freed := false; tok := false; links := [null_link; null_link] |}];
+      cells := cells s; threads := threads s; pending := pending s; err := err s |}, S (length (objs s))).
 
 Definition dec_frames (o : nat) (cnt : Z) (tmp : bool) : list frame :=
   match o with O => [] | _ => [FDecS110 o cnt tmp true] end.
@@ -218,22 +265,62 @@ Definition incw_frames (o : nat) (cnt : Z) (k : cont) : list frame :=
 Fixpoint set_range (v : list handle) (d : nat) (n : nat) (h : handle) : list handle :=
   match n with O => v | S m => set_range (set_nth v d h) (S d) m h end.
 
+(* the object a handle points to, and a cell designated by (kind, a, b): kind 0 = root cell a,
+   kind 1 = field b of the node referred to by the handle in slot a *)
+Definition hlink (h : handle) : link :=
+  match h with
+  | HRc l | HWeak l | HSnap l _ | HWSnap l _ => l
+  | HIter _ _ | HNone => null_link
+  end.
+Definition cell_code (x : thr) (ck a b : Z) : Z :=
+  if ck =? 0 then a else 1000 + 2 * zo (fst (hlink (getv x (nat_of a)))) + b.
+(* a cell operation is a no-op unless the cell is a root cell or a field reached through a
+   non-null Rc or Snapshot *)
+(* generated programs stay acyclic: a field of node X may only receive a pointer to a node
+   allocated after X (root cells may point anywhere) *)
+Definition store_ok (c : Z) (new : link) : bool :=
+  (c <? 1000) || Nat.eqb (fst new) 0 || ((c - 1000) / 2 <? zo (fst new)).
+Definition cell_ok (x : thr) (ck a : Z) : bool :=
+  if ck =? 0 then true
+  else match getv x (nat_of a) with
+       | HRc l | HSnap l _ => negb (Nat.eqb (fst l) 0)
+       | _ => false
+       end.
+
+Definition is_none (h : handle) : bool := match h with HNone => true | _ => false end.
+Fixpoint range_free (x : thr) (d n : nat) : bool :=
+  match n with O => true | S m => is_none (getv x d) && range_free x (S d) m end.
+(* an operation is a no-op unless its destination slot(s) are empty *)
+Definition dst_free (x : thr) (op : list Z) : bool :=
+  match op with
+  | [0; d] | [24; d] => is_none (getv x (nat_of d))
+  | [1; n; d] => range_free x (nat_of d) (nat_of n)
+  | [2; _; d] | [3; _; d] | [6; _; d] | [9; _; d] | [11; _; d] | [13; _; d] | [14; _; d] | [15; _; d]
+  | [16; _; d] | [17; _; d] | [18; _; d] | [19; _; d] => is_none (getv x (nat_of d))
+  | [10; _; n; d] => range_free x (nat_of d) (nat_of n)
+  | [30; _; _; _; d] => is_none (getv x (nat_of d))
+  | [32; _; _; _; src; d] => (src =? d) || is_none (getv x (nat_of d))
+  | [33; _; _; _; _; _; d] => is_none (getv x (nat_of d))
+  | _ => true
+  end.
+
 (* operation start: (state, thread, frames to run, extra observations) *)
 Definition start_op (s : state) (x : thr) (rec : list Z) (op : list Z) : state * thr * list frame * list Z :=
   let tmp := Nat.eqb (gdepth x) 0 in
+  if negb (dst_free x op) then (s, x, [], []) else
   match op with
   | [0; d] =>                                   (* Rc::new *)
-      let (s1, o) := alloc s 1 in (s1, setv x (nat_of d) (HRc o), [], [1103; zo o; 1])
+      let (s1, o) := alloc s 1 in (s1, setv x (nat_of d) (HRc (o, 0)), [], [1103; zo o; 1])
   | [1; n; d] =>                                (* Rc::new_many::<n> *)
       if n =? 0 then let (s1, o) := alloc s 1 in (s1, x, dec_frames o 1 tmp, [1103; zo o; 1])
       else let (s1, o) := alloc s n in
-           (s1, with_vars x (set_range (vars x) (nat_of d) (nat_of n) (HRc o)), [], [1103; zo o; n])
+           (s1, with_vars x (set_range (vars x) (nat_of d) (nat_of n) (HRc (o, 0))), [], [1103; zo o; n])
   | [2; c; d] =>                                (* Rc::new_many_iter *)
       if c =? 0 then let (s1, o) := alloc s 1 in (s1, setv x (nat_of d) (HIter 0 0), dec_frames o 1 tmp, [1103; zo o; 1])
       else let (s1, o) := alloc s c in (s1, setv x (nat_of d) (HIter o c), [], [1103; zo o; c])
   | [3; i; d] =>                                (* NewRcIter::next *)
       match getv x (nat_of i) with
-      | HIter o rem => if 0 <? rem then (s, with_res (setv (setv x (nat_of i) (HIter o (rem - 1))) (nat_of d) (HRc o)) 1, [], [])
+      | HIter o rem => if 0 <? rem then (s, with_res (setv (setv x (nat_of i) (HIter o (rem - 1))) (nat_of d) (HRc (o, 0))) 1, [], [])
                        else (s, with_res (setv x (nat_of d) HNone) 0, [], [])
       | _ => (s, x, [], [])
       end
@@ -249,76 +336,76 @@ Definition start_op (s : state) (x : thr) (rec : list Z) (op : list Z) : state *
       end
   | [6; a; d] =>                                (* Rc::clone *)
       match getv x (nat_of a) with
-      | HRc o => (s, x, incs_frames o (KSET (nat_of d) (HRc o)), [])
+      | HRc l => (s, x, incs_frames (fst l) (KSET (nat_of d) (HRc l)), [])
       | _ => (s, x, [], [])
       end
   | [7; a] =>                                   (* drop(Rc) *)
       match getv x (nat_of a) with
-      | HRc o => (s, setv x (nat_of a) HNone, dec_frames o 1 tmp, [])
+      | HRc l => (s, setv x (nat_of a) HNone, dec_frames (fst l) 1 tmp, [])
       | _ => (s, x, [], [])
       end
   | [8; a] =>                                   (* Rc::finalize(guard) *)
       match getv x (nat_of a) with
-      | HRc o => (s, setv x (nat_of a) HNone, dec_frames o 1 false, [])
+      | HRc l => (s, setv x (nat_of a) HNone, dec_frames (fst l) 1 false, [])
       | _ => (s, x, [], [])
       end
   | [9; a; d] =>                                (* Rc::downgrade *)
       match getv x (nat_of a) with
-      | HRc o => (s, x, incw_frames o 1 (KSET (nat_of d) (HWeak o)), [])
+      | HRc l => (s, x, incw_frames (fst l) 1 (KSET (nat_of d) (HWeak l)), [])
       | _ => (s, x, [], [])
       end
   | [10; a; n; d] =>                            (* Rc::weak_many::<n> *)
       match getv x (nat_of a) with
-      | HRc o => (s, with_vars x (set_range (vars x) (nat_of d) (nat_of n) (HWeak o)),
-                  match o with O => [] | _ => [FIncW103 o n] end, [])
+      | HRc l => (s, with_vars x (set_range (vars x) (nat_of d) (nat_of n) (HWeak l)),
+                  match fst l with O => [] | _ => [FIncW103 (fst l) n] end, [])
       | _ => (s, x, [], [])
       end
   | [11; a; d] =>                               (* Weak::clone *)
       match getv x (nat_of a) with
-      | HWeak o => (s, x, incw_frames o 1 (KSET (nat_of d) (HWeak o)), [])
+      | HWeak l => (s, x, incw_frames (fst l) 1 (KSET (nat_of d) (HWeak l)), [])
       | _ => (s, x, [], [])
       end
   | [12; a] =>                                  (* drop(Weak) *)
       match getv x (nat_of a) with
-      | HWeak o => (s, setv x (nat_of a) HNone, decw_frames o tmp, [])
+      | HWeak l => (s, setv x (nat_of a) HNone, decw_frames (fst l) tmp, [])
       | _ => (s, x, [], [])
       end
   | [13; a; d] =>                               (* Weak::upgrade *)
       match getv x (nat_of a) with
-      | HWeak o => (s, x, incs_frames o {| cdst := nat_of d; cok := HRc o; cfail := HNone; cign := false |}, [])
+      | HWeak l => (s, x, incs_frames (fst l) {| cdst := nat_of d; cok := HRc l; cfail := HNone; cign := false |}, [])
       | _ => (s, x, [], [])
       end
   | [14; a; d] =>                               (* Rc::snapshot(guard) *)
       match getv x (nat_of a) with
-      | HRc o => (s, setv x (nat_of d) (HSnap o (serial x)), [], [])
+      | HRc l => (s, setv x (nat_of d) (HSnap l (serial x)), [], [])
       | _ => (s, x, [], [])
       end
   | [15; a; d] =>                               (* Snapshot::counted (the result of increment_strong is ignored) *)
       match getv x (nat_of a) with
-      | HSnap o _ => (s, x, incs_frames o (KSET (nat_of d) (HRc o)), [])
+      | HSnap l _ => (s, x, incs_frames (fst l) (KSET (nat_of d) (HRc l)), [])
       | _ => (s, x, [], [])
       end
   | [16; a; d] =>                               (* Snapshot::downgrade *)
       match getv x (nat_of a) with
-      | HSnap o n => (s, setv x (nat_of d) (HWSnap o n), [], [])
+      | HSnap l n => (s, setv x (nat_of d) (HWSnap l n), [], [])
       | _ => (s, x, [], [])
       end
   | [17; a; d] =>                               (* WeakSnapshot::counted *)
       match getv x (nat_of a) with
-      | HWSnap o _ => (s, x, incw_frames o 1 (KSET (nat_of d) (HWeak o)), [])
+      | HWSnap l _ => (s, x, incw_frames (fst l) 1 (KSET (nat_of d) (HWeak l)), [])
       | _ => (s, x, [], [])
       end
   | [18; a; d] =>                               (* WeakSnapshot::upgrade *)
       match getv x (nat_of a) with
-      | HWSnap o n => (s, x, match o with
-                             | O => [FRet (KSET (nat_of d) (HSnap 0 n)) true]
-                             | _ => [FIsND108 o {| cdst := nat_of d; cok := HSnap o n; cfail := HNone; cign := false |}]
+      | HWSnap l n => (s, x, match fst l with
+                             | O => [FRet (KSET (nat_of d) (HSnap l n)) true]
+                             | _ => [FIsND108 (fst l) {| cdst := nat_of d; cok := HSnap l n; cfail := HNone; cign := false |}]
                              end, [])
       | _ => (s, x, [], [])
       end
   | [19; a; d] =>                               (* Weak::snapshot(guard) *)
       match getv x (nat_of a) with
-      | HWeak o => (s, setv x (nat_of d) (HWSnap o (serial x)), [], [])
+      | HWeak l => (s, setv x (nat_of d) (HWSnap l (serial x)), [], [])
       | _ => (s, x, [], [])
       end
   | [20] =>                                     (* cs() *)
@@ -326,35 +413,54 @@ Definition start_op (s : state) (x : thr) (rec : list Z) (op : list Z) : state *
       | O =>
           let g := oracle_epoch s rec 2100 in
           let s1 := see_epoch s g in
-          (s1, {| vars := vars x; gdepth := 1; ann := G s1; serial := S (serial x); inclosure := inclosure x;
-                  frames := frames x; prog := prog x; res := res x |}, [], [2100; 0; G s1])
-      | S _ =>
-          (s, {| vars := vars x; gdepth := S (gdepth x); ann := ann x; serial := serial x; inclosure := inclosure x;
-                 frames := frames x; prog := prog x; res := res x |}, [], [])
+          (s1, with_guard x 1 (G s1) (S (serial x)), [], [2100; 0; G s1])
+      | S _ => (s, with_guard x (S (gdepth x)) (ann x) (serial x), [], [])
       end
   | [21] =>                                     (* drop(guard); snapshots die with the outermost guard *)
       let v := match gdepth x with
                | S O => map (fun h => match h with HSnap _ _ | HWSnap _ _ => HNone | _ => h end) (vars x)
                | _ => vars x
                end in
-      (s, {| vars := v; gdepth := pred (gdepth x); ann := ann x; serial := serial x; inclosure := inclosure x;
-             frames := frames x; prog := prog x; res := res x |}, [], [])
-  | [24; d] => (s, setv x (nat_of d) (HRc 0), [], [])            (* Rc::null *)
+      (s, with_guard (with_vars x v) (pred (gdepth x)) (ann x) (serial x), [], [])
+  | [24; d] => (s, setv x (nat_of d) (HRc null_link), [], [])    (* Rc::null *)
   | [25; _] => (s, x, [], [])                                     (* collection rounds: cs(); flush(); drop *)
+  | [30; ck; a; b; d] =>                        (* AtomicRc::load(guard) *)
+      if cell_ok x ck a then (s, x, [FLoad121 (cell_code x ck a b) (nat_of d)], []) else (s, x, [], [])
+  | [31; ck; a; b; src] =>                      (* AtomicRc::store(rc, guard) *)
+      match getv x (nat_of src), cell_ok x ck a with
+      | HRc l, true => if store_ok (cell_code x ck a b) l
+                       then (s, setv x (nat_of src) HNone, [FSwap122 (cell_code x ck a b) l None], [])
+                       else (s, x, [], [])
+      | _, _ => (s, x, [], [])
+      end
+  | [32; ck; a; b; src; d] =>                   (* AtomicRc::swap(rc) *)
+      match getv x (nat_of src), cell_ok x ck a with
+      | HRc l, true => if store_ok (cell_code x ck a b) l
+                       then (s, setv x (nat_of src) HNone, [FSwap122 (cell_code x ck a b) l (Some (nat_of d))], [])
+                       else (s, x, [], [])
+      | _, _ => (s, x, [], [])
+      end
+  | [33; ck; a; b; e; src; d] =>                (* AtomicRc::compare_exchange(expected, desired, guard) *)
+      match getv x (nat_of e), getv x (nat_of src), cell_ok x ck a with
+      | HSnap le _, HRc ld, true =>
+          if negb (store_ok (cell_code x ck a b) ld) then (s, x, [], []) else
+          (s, x, match fst ld with
+                 | O => [FCas123 (cell_code x ck a b) le ld (nat_of src) (nat_of d)]
+                 | _ => [FCas120 (cell_code x ck a b) le ld (nat_of src) (nat_of d)]
+                 end, [])
+      | _, _, _ => (s, x, [], [])
+      end
   | _ => (set_err s 9, x, [], [])
   end.
 
 (* the object the operation's first handle argument refers to (0 when there is none) *)
-Definition hobj (h : handle) : Z :=
-  match h with
-  | HRc o | HWeak o | HSnap o _ | HWSnap o _ => zo o
-  | HIter _ _ | HNone => 0
-  end.
 Definition primary (x : thr) (op : list Z) : Z :=
   match op with
-  | opc :: a :: _ => if (3 <=? opc) && (opc <=? 19) then hobj (getv x (nat_of a)) else 0
+  | opc :: a :: _ => if (3 <=? opc) && (opc <=? 19) then zo (fst (hlink (getv x (nat_of a)))) else 0
   | _ => 0
   end.
+
+Definition ptr_op (opc : Z) : bool := (opc =? 30) || (opc =? 32) || (opc =? 33).
 
 Definition gett (s : state) (t : nat) : option thr := nth_error (threads s) t.
 
@@ -375,14 +481,15 @@ Definition micro (s : state) (t : nat) (rec : list Z) : option (state * list Z) 
           | [] => ret s x [] [1; 9; 0]
           | op :: rest =>
               let x0 := {| vars := vars x; gdepth := gdepth x; ann := ann x; serial := serial x; inclosure := inclosure x;
-                           frames := frames x; prog := rest; res := 0 |} in
+                           frames := frames x; prog := rest; res := 0; resw := -1 |} in
               match start_op s x0 rec op with
               | (s1, x1, fs, o) =>
                   ret s1 x1 (fs ++ FMay :: FOpEnd (hd 0 op) :: FOp :: k)
                       ([1; hd 0 op; hd 0 (tl op); 2001; primary x op; 0] ++ o)
               end
           end
-      | FOpEnd opc => ret s x k [2000; opc; res x]
+      | FOpEnd opc =>
+          ret s x k ((if ptr_op opc && (0 <=? resw x) then [2002; resw x; 0] else []) ++ [2000; opc; res x])
       | FRet c b =>
           ret s (with_res (setv x (cdst c) (if b then cok c else cfail c)) (if cign c then 1 else Z.b2z b)) k []
       | FMay =>
@@ -391,25 +498,22 @@ Definition micro (s : state) (t : nat) (rec : list Z) : option (state * list Z) 
           else ret s x (FAwait :: FMay :: k) []
       | FAwait =>
           (* a deferred function starts: which one is the oracle's choice *)
-          let start (kd : pkind) (oz : Z) (fs : list frame) (site : Z) :=
+          let start (kd : pkind) (oz : Z) (fs : list frame) :=
             let o := nat_of oz in
             match take_pending (pending s) kd o with
-            | None => ret (set_err s 1) x (fs ++ FEndClosure :: k) []
+            | None => ret (set_err s 1) (with_inclosure x true) (fs ++ FEndClosure :: k) []
             | Some (p, rest) =>
                 let s1 := see_epoch (set_pending s rest) (pG p + EXPIRE_AFTER) in
-                let x1 := {| vars := vars x; gdepth := gdepth x; ann := ann x; serial := serial x; inclosure := true;
-                             frames := frames x; prog := prog x; res := res x |} in
-                Some (sett s1 t (with_frames x1 (fs ++ FEndClosure :: k)), [])
+                ret s1 (with_inclosure x true) (fs ++ FEndClosure :: k) []
             end in
           match rec with
-          | 113 :: oz :: _ => start KDestruct oz [FTD113 (nat_of oz)] 113
-          | 102 :: oz :: _ => start KDealloc oz [FTDe102 (nat_of oz)] 102
+          | 113 :: oz :: _ => start KDestruct oz [FTD113 (nat_of oz)]
+          | 102 :: oz :: _ => start KDealloc oz [FTDe102 (nat_of oz)]
           | _ => ret (set_err s 4) x k []
           end
-      | FEndClosure =>
-          ret s {| vars := vars x; gdepth := gdepth x; ann := ann x; serial := serial x; inclosure := false;
-                   frames := frames x; prog := prog x; res := res x |} k []
-      (* ---- increment_strong *)
+      | FEndClosure => ret s (with_inclosure x false) k []
+      | FUnpinTmp => ret s (with_guard x (pred (gdepth x)) (ann x) (serial x)) k []
+      (* ---- increment_strong (with the loop of the D6 repair) *)
       | FIncS100 o c =>
           match geto s o with
           | None => ret (set_err s 5) x k []
@@ -426,13 +530,24 @@ Definition micro (s : state) (t : nat) (rec : list Z) : option (state * list Z) 
           | None => ret (set_err s 5) x k []
           | Some ob =>
               let w := word ob in
-              ret (seto s o (with_word ob (fadd w COUNT))) x (FRet c true :: k) [101; zo o; 0]
+              let s1 := seto s o (with_word ob (fadd w COUNT)) in
+              if destructed w then ret s1 x (FRet c false :: k) [101; zo o; 0; 1001; zo o; w]
+              else if strong w =? 0 then
+                     ret (seto s o (with_tok (with_word ob (fadd w COUNT)) true)) x (FIncS101 o c :: k) [101; zo o; 0; 1001; zo o; w]
+                   else ret s1 x (FRet c true :: k) [101; zo o; 0; 1001; zo o; w]
           end
-      (* ---- decrement_strong *)
+      (* ---- decrement_strong: pins first when no guard is passed (D7 repair) *)
       | FDecS110 o cnt tmp own =>
           let r := oracle_epoch s rec 1010 in
           let s1 := see_epoch s r in
-          ret s1 x (FDecS111 o cnt (G s1) tmp own :: k) [110; zo o; cnt; 1010; zo o; G s1]
+          let pin := tmp && negb (inclosure x) in
+          let x1 := if pin then
+                      match gdepth x with
+                      | O => with_guard x 1 (G s1) (S (serial x))
+                      | S _ => with_guard x (S (gdepth x)) (ann x) (serial x)
+                      end
+                    else x in
+          ret s1 x1 (FDecS111 o cnt (G s1) pin own :: k) [110; zo o; cnt; 1010; zo o; G s1]
       | FDecS111 o cnt r tmp own =>
           match geto s o with
           | None => ret (set_err s 5) x k []
@@ -444,10 +559,11 @@ Definition micro (s : state) (t : nat) (rec : list Z) : option (state * list Z) 
           | Some ob =>
               if word ob =? cur then
                 let w' := sub_strong (with_epoch cur r) cnt in
-                let ob' := {| word := w'; dropped := dropped ob; freed := freed ob; tok := if own then tok ob else false |} in
+                let ob' := {| word := w'; dropped := dropped ob; freed := freed ob;
+                              tok := if own then tok ob else false; links := links ob |} in
                 let s1 := seto s o ob' in
                 let s2 := if strong cur =? cnt then defer s1 KDestruct o else s1 in
-                ret s2 x k [112; zo o; 0; 1012; zo o; 1]
+                ret s2 x (if tmp then FUnpinTmp :: k else k) [112; zo o; 0; 1012; zo o; 1]
               else ret s x (FDecS111 o cnt r tmp own :: k) [112; zo o; 0; 1012; zo o; 0]
           end
       (* ---- try_destruct *)
@@ -464,14 +580,16 @@ Definition micro (s : state) (t : nat) (rec : list Z) : option (state * list Z) 
           | None => ret (set_err s 5) x k []
           | Some ob =>
               if word ob =? old then
-                ret (seto s o (with_word ob (with_destructed old true))) x (FDisp115 o 0 :: k)
-                    [114; zo o; old; 1020; zo o; 0]
+                ret (seto s o (with_word ob (with_destructed old true))) x (FDispEnter o 0 :: k) [114; zo o; old]
               else
                 let w := word ob in
                 if 0 <? strong w then ret s x (FDecS110 o 1 true false :: k) [114; zo o; old]
                 else ret s x (FTD114 o w :: k) [114; zo o; old]
           end
-      (* ---- dispose_general_node (objects without links) *)
+      (* ---- dispose_general_node *)
+      | FDispEnter o depth =>
+          if depth >=? DEPTH_CAP then ret (defer s KDestruct o) x k [1020; zo o; depth]
+          else ret s x (FDisp115 o depth :: k) [1020; zo o; depth]
       | FDisp115 o depth =>
           match geto s o with
           | None => ret (set_err s 5) x k []
@@ -480,22 +598,60 @@ Definition micro (s : state) (t : nat) (rec : list Z) : option (state * list Z) 
       | FDisp116 o depth w =>
           let r := oracle_epoch s rec 1016 in
           let s1 := see_epoch s r in
-          match geto s1 o with
-          | None => ret (set_err s 5) x k []
-          | Some ob =>
-              if dispose_here depth (G s1) (epoch w) then
-                ret (seto s1 o {| word := word ob; dropped := true; freed := freed ob; tok := tok ob |}) x
-                    (FDisp117 o depth :: k) [116; zo o; 0; 1016; zo o; G s1; 1101; zo o; depth; 1102; zo o; depth]
-              else
-                ret (defer s1 KDestruct o) x k [116; zo o; 0; 1016; zo o; G s1; 1021; zo o; depth]
-          end
-      | FDisp117 o depth =>
+          if dispose_here depth (G s1) (epoch w) then
+            ret s1 x ((if 0 <? depth then FDisp130 o depth w (G s1) else FDispDo o depth w (G s1)) :: k)
+                [116; zo o; 0; 1016; zo o; G s1]
+          else ret (defer s1 KDestruct o) x k [116; zo o; 0; 1016; zo o; G s1; 1021; zo o; depth]
+      | FDisp130 o depth w curr =>
           match geto s o with
           | None => ret (set_err s 5) x k []
           | Some ob =>
-              if weaked (word ob) then ret s x (FDecW107 o false :: k) [117; zo o; 0]
-              else ret (seto s o {| word := word ob; dropped := dropped ob; freed := true; tok := tok ob |}) x k
-                       [117; zo o; 0; 1100; zo o; 0]
+              if (strong w =? 0) && (word ob =? w) then
+                ret (seto s o (with_word ob (with_destructed w true))) x (FDispDo o depth w curr :: k) [130; zo o; w]
+              else ret s x (FTD113 o :: k) [130; zo o; w; 1130; zo o; 0]
+          end
+      | FDispDo o depth w curr =>
+          match geto s o with
+          | None => ret (set_err s 5) x k []
+          | Some ob =>
+              ret (seto s o {| word := word ob; dropped := true; freed := freed ob; tok := tok ob;
+                               links := map (fun _ => null_link) (links ob) |}) x
+                  (FDisp117 o depth (epoch w) curr (links ob) :: k) [1101; zo o; depth; 1102; zo o; depth]
+          end
+      | FDisp117 o depth ne curr outs =>
+          match geto s o with
+          | None => ret (set_err s 5) x k []
+          | Some ob =>
+              if weaked (word ob) then ret s x (FDecW107 o false :: FKids depth ne curr outs :: k) [117; zo o; 0]
+              else ret (seto s o {| word := word ob; dropped := dropped ob; freed := true; tok := tok ob; links := links ob |}) x
+                       (FKids depth ne curr outs :: k) [117; zo o; 0; 1100; zo o; 0]
+          end
+      | FKids depth ne curr outs =>
+          match outs with
+          | [] => ret s x k []
+          | c :: r => match fst c with
+                      | O => ret s x (FKids depth ne curr r :: k) []
+                      | S _ => ret s x (FKid118 c depth ne curr r :: k) []
+                      end
+          end
+      | FKid118 c depth ne curr outs =>
+          match geto s (fst c) with
+          | None => ret (set_err s 5) x k []
+          | Some ob =>
+              let wc := word ob in
+              let nxt := with_epoch (sub_strong wc 1) (wrap 64 (merged curr ne (snd c) (epoch wc))) in
+              ret s x (FKid119 c wc nxt depth ne curr outs :: k) [118; zo (fst c); snd c; 1018; zo (fst c); wc]
+          end
+      | FKid119 c wc nxt depth ne curr outs =>
+          match geto s (fst c) with
+          | None => ret (set_err s 5) x k []
+          | Some ob =>
+              if word ob =? wc then
+                let s1 := seto s (fst c) (with_word ob nxt) in
+                if strong nxt =? 0 then
+                  ret s1 x (FDispEnter (fst c) (depth + 1) :: FKids depth ne curr outs :: k) [119; zo (fst c); nxt; 1019; zo (fst c); 1]
+                else ret s1 x (FKids depth ne curr outs :: k) [119; zo (fst c); nxt; 1019; zo (fst c); 1]
+              else ret s x (FKid118 c depth ne curr outs :: k) [119; zo (fst c); nxt; 1019; zo (fst c); 0]
           end
       (* ---- decrement_weak / try_dealloc *)
       | FDecW107 o tmp =>
@@ -512,7 +668,7 @@ Definition micro (s : state) (t : nat) (rec : list Z) : option (state * list Z) 
           | None => ret (set_err s 5) x k []
           | Some ob =>
               if 0 <? weak (word ob) then ret s x (FDecW107 o true :: k) [102; zo o; 0]
-              else ret (seto s o {| word := word ob; dropped := dropped ob; freed := true; tok := tok ob |}) x k
+              else ret (seto s o {| word := word ob; dropped := dropped ob; freed := true; tok := tok ob; links := links ob |}) x k
                        [102; zo o; 0; 1100; zo o; 0]
           end
       (* ---- increment_weak *)
@@ -568,6 +724,53 @@ Definition micro (s : state) (t : nat) (rec : list Z) : option (state * list Z) 
                 let w := word ob in
                 if negb (destructed w) && (strong w =? 0) then ret s x (FIsND109 o w c :: k) [109; zo o; old]
                 else ret s x (FRet c (negb (destructed w)) :: k) [109; zo o; old]
+          end
+      (* ---- AtomicRc cells and link fields *)
+      | FLoad121 c d =>
+          match get_cell s c with
+          | None => ret (set_err s 6) x k []
+          | Some l => ret s (with_resw (setv x d (HSnap l (serial x))) (lw l)) k [121; c; 0]
+          end
+      | FSwap122 c new d =>
+          match fst new with
+          | S _ => ret s x (FSwap120 c new d :: k) [122; c; lw new]
+          | O =>
+              match get_cell s c with
+              | None => ret (set_err s 6) x k []
+              | Some old =>
+                  let s1 := set_cell s c new in
+                  match d with
+                  | Some dd => ret s1 (with_resw (setv x dd (HRc old)) (lw old)) k [122; c; lw new; 1022; c; lw old]
+                  | None => ret s1 x (dec_frames (fst old) 1 false ++ k) [122; c; lw new; 1022; c; lw old]
+                  end
+              end
+          end
+      | FSwap120 c new d =>
+          match get_cell s c with
+          | None => ret (set_err s 6) x k []
+          | Some old =>
+              let s0 := see_epoch s (oracle_epoch s rec 1120) in
+              let s1 := set_cell s0 c (fst new, G s0 mod 16) in
+              match d with
+              | Some dd => ret s1 (with_resw (setv x dd (HRc old)) (lw old)) k [120; 0; 0; 1120; 0; G s0; 1022; c; lw old]
+              | None => ret s1 x (dec_frames (fst old) 1 false ++ k) [120; 0; 0; 1120; 0; G s0; 1022; c; lw old]
+              end
+          end
+      | FCas120 c e des src d =>
+          let s0 := see_epoch s (oracle_epoch s rec 1120) in
+          ret s0 x (FCas123 c e (fst des, G s0 mod 16) src d :: k) [120; 0; 0; 1120; 0; G s0]
+      | FCas123 c e desraw src d =>
+          match get_cell s c with
+          | None => ret (set_err s 6) x k []
+          | Some cur =>
+              if (Nat.eqb (fst cur) (fst e)) && (snd cur =? snd e) then
+                (* success: desired goes into the cell, the previous content comes back as an Rc *)
+                ret (set_cell s c desraw) (with_res (with_resw (setv (setv x src HNone) d (HRc e)) (lw e)) 1) k [123; c; lw e]
+              else if Nat.eqb (fst cur) (fst e) then
+                (* only the timestamp differs: refresh and retry *)
+                ret s x (FCas123 c cur desraw src d :: k) [123; c; lw e]
+              else
+                ret s (with_res (with_resw (setv x d (HSnap cur (serial x))) (lw cur)) 0) k [123; c; lw e]
           end
       end
     end
@@ -630,11 +833,12 @@ Definition step (s : state) (t : nat) (rec : list Z) : option (state * list Z) :
   else None.
 
 (* ---- program decoding.
-   input: g0 :: nobj :: <nobj initial words> :: threads, each `-1 nvars <nvars handles: kind obj> nops <ops: len opcode args..>` *)
+   input: g0 :: ncells :: nobj :: <nobj initial words> :: threads, each
+          `-1 nvars <nvars handles: kind obj> nops <ops: len opcode args..>` *)
 Definition dec_handle (kd o : Z) : handle :=
   match kd with
-  | 1 => HRc (nat_of o)
-  | 2 => HWeak (nat_of o)
+  | 1 => HRc (nat_of o, 0)
+  | 2 => HWeak (nat_of o, 0)
   | _ => HNone
   end.
 
@@ -669,7 +873,7 @@ Fixpoint dec_threads (fuel : nat) (l : list Z) : list thr :=
           | nops :: r2 =>
               let (ops, r3) := dec_ops (nat_of nops) r2 in
               {| vars := v ++ repeat HNone 8; gdepth := 0; ann := 0; serial := 0; inclosure := false;
-                 frames := [FStart; FOp]; prog := ops; res := 0 |} :: dec_threads f r3
+                 frames := [FStart; FOp]; prog := ops; res := 0; resw := 0 |} :: dec_threads f r3
           | [] => []
           end
       | _ => []
@@ -678,13 +882,15 @@ Fixpoint dec_threads (fuel : nat) (l : list Z) : list thr :=
 
 Definition init (prog : list Z) : state :=
   match prog with
-  | g0 :: nobj :: r =>
+  | g0 :: ncells :: nobj :: r =>
       let ws := firstn (nat_of nobj) r in
       {| G := g0;
-         objs := map (fun w => {| word := wrap 64 w; dropped := false; freed := false; tok := false |}) ws;
+         objs := map (fun w => {| word := wrap 64 w; dropped := false; freed := false; tok := false;
+                                  links := [null_link; null_link] |}) ws;
+         cells := repeat null_link (nat_of ncells);
          threads := dec_threads (length r) (skipn (nat_of nobj) r);
          pending := []; err := 0 |}
-  | _ => {| G := 0; objs := []; threads := []; pending := []; err := 0 |}
+  | _ => {| G := 0; objs := []; cells := []; threads := []; pending := []; err := 0 |}
   end.
 
 (* guided replay: the recorded step list supplies the oracle *)
